@@ -109,6 +109,9 @@ R.contract(
         "self._ranges._RangeSet__ranges", "self._ranges.gview", "self._ranges.gidx", "frame.data", "frame.offset",
     ],
     ghost_exit={"self.gM": "amap(lambda x: at(d0, x - o0) if lo <= x < fend else old(self.gM)[x])"},
+    # proof hint: the model is updated, and the buffer/ranges re-tied to it, BEFORE the delivered prefix is pulled out
+    ghost_at={"data = self._pull_data()": {"self.gM": "amap(lambda x: at(d0, x - o0) if lo <= x < fend else old(self.gM)[x])"}},
+    cuts={"data = self._pull_data()": ["rx_window(self)", "rx_bytes(self)", "self._buffer_start == s0", "self._buffer_start + len(self._buffer) == self.highest_offset"]},
     ensures=[
         "implies(fin0, self._final_size == fend)",
         "implies(not fin0, self._final_size == old(self._final_size))",
